@@ -420,7 +420,7 @@ def gen_case(rng, tier):
     asm = ''.join(f'{k} = {v}\n' if v >= 0 else f'{k} = 0 - {-v}\n' for k, v in consts.items()) + ''.join(t + '\n' for _, t in stmts)
     base = {'op': 'stmt', 'regs': regs, 'gs': gz[0], 'ge': gz[1], 'env': [[k, v] for k, v in consts.items()],
             'variants': variants_m}
-    return {'isa': isa, 'asm': asm, 'base': base, 'stmts': [f for f, _ in stmts], 'nvar': nvar,
+    return {'isa': isa, 'asm': asm, 'base': base, 'stmts': [f for f, _ in stmts], 'texts': [t for _, t in stmts], 'nvar': nvar,
             'shared': any(v.get('shared') for v in variants_m)}
 
 
@@ -481,7 +481,7 @@ def gen_case_shadow(rng, tier):
     asm = ''.join(f'{k} = {v}\n' for k, v in consts.items()) + ''.join(t + '\n' for _, t in stmts)
     base = {'op': 'stmt', 'regs': regs, 'gs': gz[0], 'ge': gz[1], 'env': [[k, v] for k, v in consts.items()],
             'variants': variants_m}
-    return {'isa': isa, 'asm': asm, 'base': base, 'stmts': [f for f, _ in stmts], 'nvar': len(plan), 'shadow': True}
+    return {'isa': isa, 'asm': asm, 'base': base, 'stmts': [f for f, _ in stmts], 'texts': [t for _, t in stmts], 'nvar': len(plan), 'shadow': True}
 
 
 def gen_case_history(rng, tier):
@@ -536,7 +536,7 @@ def gen_case_history(rng, tier):
     asm = ''.join(f'{k} = {v}\n' for k, v in consts.items()) + ''.join(t + '\n' for _, t in stmts)
     base = {'op': 'stmt', 'regs': regs, 'gs': gz[0], 'ge': gz[1], 'env': [[k, v] for k, v in consts.items()],
             'variants': variants_m}
-    return {'isa': isa, 'asm': asm, 'base': base, 'stmts': [f for f, _ in stmts], 'nvar': 2, 'history': True}
+    return {'isa': isa, 'asm': asm, 'base': base, 'stmts': [f for f, _ in stmts], 'texts': [t for _, t in stmts], 'nvar': 2, 'history': True}
 
 
 def gen_case_set_history(rng, tier):
@@ -596,7 +596,7 @@ def gen_case_set_history(rng, tier):
     asm = ''.join(f'{k} = {v}\n' for k, v in consts.items()) + ''.join(t + '\n' for _, t in stmts)
     base = {'op': 'stmt', 'regs': regs, 'gs': gz[0], 'ge': gz[1], 'env': [[k, v] for k, v in consts.items()],
             'variants': variants_m}
-    return {'isa': isa, 'asm': asm, 'base': base, 'stmts': [f for f, _ in stmts], 'nvar': 1, 'history': True, 'set_history': True}
+    return {'isa': isa, 'asm': asm, 'base': base, 'stmts': [f for f, _ in stmts], 'texts': [t for _, t in stmts], 'nvar': 1, 'history': True, 'set_history': True}
 
 
 def generate(rng, tier):
@@ -612,7 +612,9 @@ def to_impl(case):
 def to_model(case):
     # every statement is offered to the model on its own (the property: the choice depends on the ISA order only);
     # its address is the sum of the sizes of the statements before it, which the judge recomputes from the replies
-    return [dict(case['base'], forms=f, addr=0) for f in case['stmts']]
+    # ... and as the source text the real assembler reads (parsed by the Lean front end: `Parse.parseLine`)
+    texts = case.get('texts') or [None] * len(case['stmts'])
+    return [dict(case['base'], forms=f, addr=0, **({'text': t, 'mn': 'tst'} if t is not None else {})) for f, t in zip(case['stmts'], texts)]
 
 
 def judge(case, ir, mrs):
@@ -622,6 +624,14 @@ def judge(case, ir, mrs):
     if ir['status'] == 'timeout':
         return {'verdict': Verdict.VIOLATION, 'detail': 'no termination; ' + det, 'tags': tags}
     actual = impl.fbytes(ir, 'out.bin') if ir['status'] == 'ok' else None
+    # model-side tie: the parsed source text must select and encode like the structured operand forms
+    for m, t in zip(mrs, case.get('texts') or []):
+        mt = m.get('text')
+        if mt is not None and (('err' in mt) != ('err' in m) or mt.get('bytes') != m.get('bytes') or mt.get('variant') != m.get('variant')):
+            return {'verdict': Verdict.CORR, 'tags': tags,
+                    'detail': f'model front end: text {t!r} -> {mt}, structured forms -> {dict((k, m[k]) for k in m if k not in ("sel", "text"))}; {det}'[:1500]}
+    if mrs and all('text' in m for m in mrs):
+        tags.append('text-route=structured-route')
     # statement addresses: sizes are known from the selection alone, so re-ask the model at the real addresses
     sizes = [m.get('sel', {}).get('size') for m in mrs]
     addrs, a = [], 0
